@@ -153,7 +153,7 @@ def term_value(topo, states, interactions, canonical, angles, node_factor=None):
             s1, s2 = d2(states[c1].particle.spin), d2(states[c2].particle.spin)
             val *= clebsch(L, 0, S, l1 - l2, J, l1 - l2) * clebsch(s1, l1, s2, -l2, S, l1 - l2)
         if node_factor is not None:
-            val *= node_factor(topo, states, n, pin, c1, c2)
+            val *= node_factor(topo, states, interactions, n, pin, c1, c2)
     return val
 
 
